@@ -105,6 +105,20 @@ def fam_c07(tier, seed):
             for pts in ([5 * MS], [5 * MS, 6 * MS], [3 * MS, 12 * MS]):
                 extra.append((combo, ut, pts))
     recvs["trypoll"] = lambda: R_try_loop(3 * T)
+    # unblock() with nobody receiving, THEN requests queue up behind the token, THEN the first receive calls arrive
+    for nu in (1, 2):
+        for combo in (("trypoll",), ("trypoll", "trypoll"), ("timedloop",), ("try", "recv"), ("tryrecv",)):
+            for nreq in (1, 2):
+                apps = []
+                for i, r in enumerate(combo):
+                    a = R_try_then_recv() if r == "tryrecv" else (R_try_loop(4) if r == "try" else recvs[r]())
+                    apps.append({"prog": [{"op": "sleep", "ns": (6 + i) * MS}] + a["prog"]})
+                apps.append(unblocker(0, nu))
+                cc = [simple_conn(c, 1, at_ns=3 * MS) for c in range(nreq)]
+                sc = scenario("C07-b%03d" % k, "C07", cc, apps, horizon_ms=4 * T + 20, single=False)
+                sc["tags"] = ["queue", "requests-behind-token", "unblock:%d" % nu, "recv:" + "+".join(combo)]
+                scs.append(sc)
+                k += 1
     for combo, ut, pts in extra:
         apps = [recvs[r]() for r in combo] + [unblocker(ut, 1)]
         cc = [simple_conn(c, 1, at_ns=t) for c, t in enumerate(pts)]
@@ -986,6 +1000,19 @@ def _bad_heads():
         ("ver-lower", "r400", b"GET @URL@ http/1.1\r\nHost: x\r\n\r\n"),
         ("ver-garbage", "r400", b"GET @URL@ FOO\r\nHost: x\r\n\r\n"),
         ("ver-http11", "r400", b"GET @URL@ HTTP/11\r\nHost: x\r\n\r\n"),
+        # tokens that only a numeric reading would take for a recognised version
+        ("ver-01.1", "r400", b"GET @URL@ HTTP/01.1\r\nHost: x\r\n\r\n"),
+        ("ver-1.01", "r400", b"GET @URL@ HTTP/1.01\r\nHost: x\r\n\r\n"),
+        ("ver-plus", "r400", b"GET @URL@ HTTP/+1.1\r\nHost: x\r\n\r\n"),
+        ("ver-1.plus0", "r400", b"GET @URL@ HTTP/1.+0\r\nHost: x\r\n\r\n"),
+        ("ver-02.0", "r400", b"GET @URL@ HTTP/02.0\r\nHost: x\r\n\r\n"),
+        ("ver-1.1.0", "r400", b"GET @URL@ HTTP/1.1.0\r\nHost: x\r\n\r\n"),
+        ("ver-1", "r400", b"GET @URL@ HTTP/1\r\nHost: x\r\n\r\n"),
+        ("ver-1.10", "r400", b"GET @URL@ HTTP/1.10\r\nHost: x\r\n\r\n"),
+        ("ver-1.1x", "r400", b"GET @URL@ HTTP/1.1x\r\nHost: x\r\n\r\n"),
+        ("ver-mixed-case", "r400", b"GET @URL@ Http/1.1\r\nHost: x\r\n\r\n"),
+        ("ver-2", "r400", b"GET @URL@ HTTP/2\r\nHost: x\r\n\r\n"),
+        ("ver-4.0", "r400", b"GET @URL@ HTTP/4.0\r\nHost: x\r\n\r\n"),
         ("no-colon", "r400", b"GET @URL@ HTTP/1.1\r\nHost x\r\n\r\n"),
         ("no-colon-2nd", "r400", b"GET @URL@ HTTP/1.1\r\nHost: x\r\nBroken\r\n\r\n"),
         # a header line that consists of whitespace only is a header line without a colon, not the end of the head
@@ -1140,6 +1167,26 @@ def fam_c18(tier, seed):
         sc["tags"] = ["continue", "expect:%s" % exp, "len:%d" % n, pname, "pos:%d" % pos]
         scs.append(sc)
         k += 1
+    # after the interim response the client sends the body in several pieces, with pauses: every byte is still read
+    for n in (5, 11, 1024, 1025, 3000):
+        for exp in ("100-continue", None):
+            for pname, mk in (("readall", lambda: _with_read(respond(200, 3), sizes=[600], to_eof=True)),
+                              ("read_to_end", lambda: dict(respond(200, 3), read_std="read_to_end")),
+                              ("ask-then-readall", lambda: _with_read(respond(200, 3), ask=2, sizes=[7], to_eof=True))):
+                m = Msg(method="POST", framing="cl", body_len=n, expect=exp, plan=mk())
+                d, j, ln = conn([m, Msg()], 0)
+                me = d["msgs"][0]
+                prog = [{"op": "send", "to": me["he"]}]
+                if exp is not None:
+                    prog.append({"op": "await", "frames": 1})
+                third = max(1, n // 3)
+                prog += [{"op": "send", "to": me["he"] + third}, {"op": "sleep", "ns": MS}, {"op": "send", "to": me["he"] + 2 * third},
+                         {"op": "sleep", "ns": 2 * MS}, {"op": "send", "to": ln}]
+                d["prog"] = prog
+                sc = scenario("C18-%04d" % k, "C18", [(d, j, ln)], _single_app(), horizon_ms=100)
+                sc["tags"] = ["continue", "body-in-pieces", "expect:%s" % exp, "len:%d" % n, pname]
+                scs.append(sc)
+                k += 1
     # two requests with an expectation on one connection, each handled on its own thread; the first is read to its end
     # (which lets the second be parsed and delivered) but answered late: the second one's 100 Continue must wait for its
     # turn behind the first final response -- a client reads interim responses as belonging to the next final one
@@ -1211,6 +1258,9 @@ def corpus(tier):
     c.append(("chunked", lambda: [Msg(method="POST", framing="chunked", body_len=23, chunks=[10, 1, 12], plan=_with_read(respond(200, 3), sizes=[9], to_eof=True)), Msg()], b""))
     c.append(("chunked-ext", lambda: [Msg(method="POST", framing="chunked", body_len=17, chunks=[16, 1], chunk_opts=dict(hexcase="upper", lead0=1, ext=";a=b"), plan=_with_read(respond(200, 3), sizes=[64], to_eof=True)), Msg()], b""))
     c.append(("unread-body", lambda: [Msg(method="POST", framing="cl", body_len=1500, plan=respond(200, 3)), Msg()], b""))
+    c.append(("expect-eager", lambda: [Msg(method="POST", framing="cl", body_len=30, expect="100-continue", plan=_with_read(respond(200, 3), sizes=[64], to_eof=True)), Msg()], b""))
+    c.append(("expect-eager-large", lambda: [Msg(method="POST", framing="cl", body_len=1100, expect="100-Continue", plan=_with_read(respond(200, 3), sizes=[4096], to_eof=True)), Msg()], b""))
+    c.append(("expect-eager-unasked", lambda: [Msg(method="POST", framing="cl", body_len=12, expect="100-continue", plan=respond(200, 3)), Msg()], b""))
     c.append(("chunked-zero-mid", lambda: [Msg(method="POST", framing="chunked", body_len=8, chunks=[5, 3], plan=_with_read(respond(200, 3), sizes=[5, 0, 64], to_eof=True)), Msg()], b""))
     c.append(("chunked-zero-mid3", lambda: [Msg(method="POST", framing="chunked", body_len=30, chunks=[10], plan=_with_read(respond(200, 3), sizes=[10, 0, 10, 0, 64], to_eof=True)), Msg(), Msg()], b""))
     c.append(("unread-chunked", lambda: [Msg(method="POST", framing="chunked", body_len=120, chunks=[50, 70], plan=respond(200, 3)), Msg()], b""))
